@@ -355,6 +355,35 @@ func checkC19R(r *rt.Run) *rViolation {
 	return nil
 }
 
+// ---- C19 (runtime part, REAL timer): a view that is left by its election timeout lasted at least that timeout, whatever the
+// worker was doing when earlier timers fired (e.g. the trigger of the previous height expiring inside a slow commit callback and
+// being picked up only after the next height armed its own timer). Sound bound: a state lasted at most
+// (first time the next state was seen) - (last time the previous state was seen); sampling delay can only enlarge it.
+
+func checkC19RT(r *rt.Run) *rViolation {
+	h := r.H
+	if !h.Cfg.RealTimer {
+		return nil
+	}
+	for _, rec := range r.Records {
+		if rec.Op.K == "elect" || rec.Op.K == "trigger" {
+			return nil // views may legitimately be left early by votes / harness-made triggers: not judged
+		}
+	}
+	base := time.Duration(h.Cfg.BaseMs) * time.Millisecond
+	for i := 1; i+1 < len(h.HVSamples) && i+1 < len(h.HVTimes); i++ {
+		a, b := h.HVSamples[i], h.HVSamples[i+1]
+		if a[0] != b[0] || b[1] != a[1]+1 || a[1] > 8 {
+			continue
+		}
+		want := base << a[1]
+		if atMost := h.HVTimes[i+1].FirstSeen.Sub(h.HVTimes[i].PrevLastSeen); atMost < want-300*time.Microsecond {
+			return &rViolation{"view-left-before-timeout", fmt.Sprintf("(h=%d,v=%d) was left by election after at most %v, less than its timeout %v (base %v)", a[0], a[1], atMost, want, base)}
+		}
+	}
+	return nil
+}
+
 // ---- C16: shutdown is complete
 
 func checkC16(r *rt.Run) *rViolation {
@@ -544,6 +573,25 @@ func TestC19R(t *testing.T) {
 	})
 }
 
+// C19, runtime part on the REAL TimerBasedElectionTrigger: rounds with commit callbacks that outlast the election timeout of
+// their height, so that an old trigger is in flight when the next height arms its timer.
+func TestC19RT(t *testing.T) {
+	o := rOpts{Focus: "C19", MaxOps: 6, Kinds: []string{"round", "sleep"}, RealTimer: true}
+	rProperty(t, o, checkC19RT, func(r *rt.Run) bool { return len(r.H.Commits) > 0 }, func(t *rapid.T, c *rt.Case) {
+		c.Cfg.CommitteeFailFirst, c.Cfg.FailCommitAt, c.Cfg.AbsentAt = 0, nil, 0
+		c.Cfg.BaseMs = rapid.IntRange(3, 8).Draw(t, "basems")
+		var ops []rt.Op
+		for k := rapid.IntRange(1, 3).Draw(t, "slow-rounds"); k > 0; k-- {
+			// the commit callback of this round is held for longer than the view-0 timeout: the (h,0) trigger expires inside it
+			ops = append(ops, rt.Op{K: "plan", Kind: "commit", Policy: "hold"}, rt.Op{K: "round", Order: "prc"},
+				rt.Op{K: "sleep", N: 1000*c.Cfg.BaseMs + rapid.IntRange(200, 3000).Draw(t, "over")}, rt.Op{K: "release"},
+				rt.Op{K: "sleep", N: rapid.SampledFrom([]int{300, 1000, 1000 * c.Cfg.BaseMs / 2}).Draw(t, "after")})
+		}
+		ops = append(ops, rt.Op{K: "sleep", N: 1000 * c.Cfg.BaseMs * 3})
+		c.Ops = ops
+	})
+}
+
 func gateWasClosedAtCancel(r *rt.Run) bool {
 	for _, rec := range r.Records {
 		if rec.Op.K == "cancel" && len(rec.BlockedAtStart) > 0 {
@@ -631,5 +679,10 @@ func init() {
 	mk("C15", checkC15)
 	mk("C16", checkC16)
 	mk("C12", checkC12R)
-	mk("C19", checkC19R)
+	mk("C19", func(r *rt.Run) *rViolation {
+		if v := checkC19R(r); v != nil {
+			return v
+		}
+		return checkC19RT(r)
+	})
 }
